@@ -58,6 +58,7 @@ func cornerProfile(r *rand.Rand) (gen.Profile, gen.DataCfg) {
 	p.Uploads = true
 	// object fields called `node`, arguments of a custom scalar type (literals with variables inside)
 	p.NodeNamedField, p.ScalarArgs, p.PArgs = 0.4, true, 0.4
+	p.BareEntity = 0.4 // Node types without any field besides id: known to the gateway, owned by no service
 	return p, gen.DataCfg{Seed: uint64(r.Int63()), PNull: 10, ListMax: 2, Pool: 3}
 }
 
@@ -234,6 +235,10 @@ func (p c07) Gen(c *run.Ctx, idx int) (json.RawMessage, error) {
 	validOp := func() *gen.Op {
 		pr := gen.DefaultOpProfile()
 		pr.Depth = 2 + r.Intn(3)
+		pr.Pool = cu.spec.Data.Pool
+		if r.Intn(4) == 0 {
+			pr.ForceNodeRoot, pr.PNodeSecond = true, 0.5
+		}
 		return genValidOp(r, cu.mono, pr)
 	}
 	goodBody := func() map[string]any {
